@@ -29,6 +29,11 @@ func ToCall(spec string) Target {
 	}}
 }
 
+// ToReturn: every return instruction.
+func ToReturn() Target {
+	return Target{Name: "return", Instr: func(i ssa.Instruction) bool { _, ok := i.(*ssa.Return); return ok }}
+}
+
 func ToCallSameIter(spec string) Target {
 	t := ToCall(spec)
 	t.SameIter = true
